@@ -6,7 +6,7 @@ WT=/tmp/wt-test
 PATCH=$(readlink -f "$1"); shift
 cd "$(dirname "$0")/.."
 git -C $WT checkout -q -- . || exit 2
-git -C $WT apply "$PATCH" || { echo "PATCH DOES NOT APPLY"; exit 2; }
+git -C $WT apply "$PATCH" 2>/dev/null || (cd $WT && patch -p1 -s --fuzz=3 < "$PATCH") || { echo "PATCH DOES NOT APPLY"; exit 2; }
 git -C $WT diff --stat | tail -1
 for P in "$@"; do
   echo "=== $P on $(basename $(dirname $PATCH))"
